@@ -19,6 +19,10 @@ Decides the representation-invariant discipline of TestCase and the length guard
    dependency closure (C15.cascade).
 Def-before-use after arbitrary operator histories (cursor arithmetic of the recursive emitters) is
 not decided.
+Further clauses (added later): C15.container interprets TestCase (registry == bound variables after add / chop
+/ batch removal, clone independence); C15.cascade interprets delete_statement_gracefully over every well-
+formed 4-statement test case: no read is left without a binder and nothing outside the dependency closure is
+removed.
 """
 
 from __future__ import annotations
